@@ -120,6 +120,103 @@ def build(rp, nsides, eager=False, net=None, first=0):
     return net, sessions
 
 
+class RoleReg(dict):
+    """the registry as the role initialisers use it: flat keys (crosswire) and the bridge entry (`_init_primary`)"""
+    def dump(self, *a, **k): pass
+
+
+def build_roles(rp, nsides, subagents, eager=False):
+    """the sides brought up by the REAL role initialisers of Session - `_init_primary` on the client, `_init_agent_0` on
+    every pilot, and `_init_agent_n` for each sub-agent of a pilot (`subagents[side]` of them; a sub-agent session shares
+    its pilot's registry and origin marker) - with everything but `_start_components` and `_crosswire_proxy` stubbed:
+    registry and proxy services, configuration, resource manager, component manager."""
+    import radical.utils as ru
+    import radical.pilot.session as smod
+    from radical.pilot import constants as rpc
+    net = Net(eager)
+    class Pub(object):
+        def __init__(self, channel, url=None, **kw): self.url = url
+        def put(self, topic, msg): net.put(self.url, topic, msg)
+    class Sub(object):
+        def __init__(self, channel, topic=None, cb=None, url=None, **kw):
+            self.url, self.cb = url, cb
+            net.subscribe(url, cb)
+        def stop(self): net.unsubscribe(self.url, self.cb)
+    class CMgr(object):
+        def __init__(self, *a, **k): pass
+        def start_bridges(self, *a, **k): pass
+        def start_components(self, *a, **k): pass
+        def close(self): pass
+    old = (ru.zmq.Publisher, ru.zmq.Subscriber, smod.rpu.ComponentManager)
+    ru.zmq.Publisher, ru.zmq.Subscriber, smod.rpu.ComponentManager = Pub, Sub, CMgr
+    sessions, errs = [], []
+    noop = lambda *a, **k: None
+    try:
+        for s in range(nsides):
+            reg = RoleReg()
+            for ch in (rpc.CONTROL_PUBSUB, rpc.STATE_PUBSUB):
+                reg['bridges.%s.addr_sub' % ch.lower()] = 'mem://%d/%s' % (s, ch)
+                reg['bridges.%s.addr_pub' % ch.lower()] = 'mem://%d/%s' % (s, ch)
+                reg['bridges.%s' % ch] = {'addr_sub': 'mem://%d/%s' % (s, ch), 'addr_pub': 'mem://%d/%s' % (s, ch)}
+            for ch in (rpc.PROXY_CONTROL_PUBSUB, rpc.PROXY_STATE_PUBSUB):
+                reg['bridges.%s.addr_sub' % ch.lower()] = 'mem://proxy/%s' % ch
+                reg['bridges.%s.addr_pub' % ch.lower()] = 'mem://proxy/%s' % ch
+            roles = ['primary' if s == 0 else 'agent_0'] + ['agent_n'] * (subagents.get(s, 0) if s else 0)
+            for role in roles:
+                sess = object.__new__(rp.Session)
+                sess._module  = module_of(s)
+                sess._role    = {'primary': sess._PRIMARY, 'agent_0': sess._AGENT_0, 'agent_n': sess._AGENT_N}[role]
+                sess._log, sess._prof = rpload.NullLog(), rpload.NullLog()
+                sess._to_stop = []
+                sess._uid     = 'rp.session.verif'
+                sess._cfg     = ru.Config(from_dict={'path': '.', 'reg_addr': 'mem://reg', 'bridges': {}, 'components': {}})
+                sess._reg     = reg
+                sess._reg_addr = 'mem://reg'
+                for name in ('_init_cfg_from_scratch', '_start_registry', '_connect_registry', '_start_proxy', '_publish_cfg',
+                             '_init_cfg_from_dict', '_connect_proxy', '_init_rm', '_init_cfg_from_registry', 'dump'):
+                    setattr(sess, name, noop)
+                try:
+                    {'primary': sess._init_primary, 'agent_0': sess._init_agent_0, 'agent_n': sess._init_agent_n}[role]()
+                except Exception as e:
+                    errs.append('%s of side %d: %s: %s' % (role, s, type(e).__name__, e))
+                sessions.append(sess)
+    finally:
+        ru.zmq.Publisher, ru.zmq.Subscriber, smod.rpu.ComponentManager = old
+    return net, sessions, errs
+
+
+def run_publish_roles(rp, nsides, subagents, side, msg, channel_idx):
+    from radical.pilot import constants as rpc
+    ch = [rpc.CONTROL_PUBSUB, rpc.STATE_PUBSUB][channel_idx]
+    net, _, errs = build_roles(rp, nsides, subagents)
+    got = {s: [] for s in range(nsides)}
+    for s in range(nsides):
+        net.subscribe('mem://%d/%s' % (s, ch), lambda t, m, s=s: got[s].append(from_msg(m)))
+    net.put('mem://%d/%s' % (side, ch), ch, to_msg(msg))
+    quiet = net.run()
+    return got, quiet, errs
+
+
+def roles_cases(rp, ctx):
+    n = 0
+    for subagents in ({}, {1: 1}, {1: 2, 2: 1}):
+        for side in range(3):
+            for ci in (0, 1):
+                for fwd in (True, False, None):
+                    msg = {'origin': None, 'fwd': fwd, 'body': 7}
+                    got, quiet, errs = run_publish_roles(rp, 3, subagents, side, msg, ci)
+                    n += 1
+                    ctx.case({'roles': [subagents, side, ci, fwd]}, nontrivial=bool(subagents) and fwd is True)
+                    inp = {'kind': 'roles', 'subagents': {str(k): v for k, v in subagents.items()}, 'side': side, 'channel': ci, 'fwd': fwd}
+                    if errs:
+                        ctx.fail('roles:session-initialiser-raises', str(errs), inp); continue
+                    bad = monitor(3, side, msg, got, quiet)
+                    if bad:
+                        ctx.fail('roles:' + bad[0], bad[1] + ' (sub-agents per pilot: %s)' % subagents, inp)
+    ctx.obligation('sides brought up by the real role initialisers (_init_primary, _init_agent_0, and _init_agent_n for the sub-agents of a '
+                   'pilot): every forwarded message is delivered once on every other side, local ones stay (%d runs)' % n, 'tie', True, '')
+
+
 # side names: pilot uids are user-definable, so names may contain each other
 NAMES = ['client', 'pilot.1', 'pilot.10', 'pilot.100', 'pilot', 'pilot.1.a', 'p', 'client.pilot.1', 'lot.1']
 
@@ -526,6 +623,7 @@ def run(ctx):
     ctx.obligation('a side that connects while the others exchange messages: what each of its forwarders receives as its subscription '
                    'goes live is delivered exactly once (2..%d sides)' % nmax, 'tie', True, '')
     close_cases(rp, ctx)
+    roles_cases(rp, ctx)
     # message sequences: forwarders are stateless -> each message behaves as if alone
     rng = ctx.rng
     for _ in range(ctx.n(100, 2000)):
@@ -606,6 +704,12 @@ def replay(ctx, data):
         return replay_join(ctx, data)
     rp = rpload.load()
     i = data['input']
+    if i.get('kind') == 'roles':
+        msg = {'origin': None, 'fwd': i['fwd'], 'body': 7}
+        got, quiet, errs = run_publish_roles(rp, 3, {int(k): v for k, v in i['subagents'].items()}, i['side'], msg, i['channel'])
+        bad = monitor(3, i['side'], msg, got, quiet)
+        print(got, quiet, errs, bad)
+        return not errs and not bad
     if 'msgs' in i:
         return False
     if 'close' in i:
